@@ -16,7 +16,8 @@ RULE = ("cases = random straight-line programs (DAGs, depth <= 8, shared sub-ter
         "evaluated three ways: in the reference class, in the optimized class and in pv.model.gf; canonical results (or the kind of "
         "exception) must agree node by node; sgn0 of optimized FQ / FQ2 / FQ12 / ad-hoc extension elements is compared with RFC 9380 4.1 "
         "(generic m) including after negation and for FQ-object coefficients; small fields: every depth-1 program over the whole operand "
-        "space; distinct = distinct (field, program, leaves); non-trivial = programs with >= 2 operations or leaves other than 2,7,9,11,[1,2],[1..12]")
+        "space; distinct = distinct (field, program, leaves); non-trivial = programs with >= 2 operations or leaves other than 2,7,9,11,[1,2],[1..12]"
+        " Programs over primes just below a power of two (31 .. 2^255-19, secp256k1 prime) with leaves at the top of the coefficient range.")
 ASSUMPTIONS = ["FQP x FQ products are reference-only and excluded; leaves are homogeneous coefficient sequences"]
 
 OPS2 = ["add", "sub", "mul", "div"]
